@@ -192,3 +192,33 @@ pub fn vec_map_collect<T, U, F: Fn(T) -> U>(v: Vec<T>, f: F) -> (r: Vec<U>)
 pub fn vec_refs<'a, T>(v: &'a Vec<T>) -> (r: Vec<&'a T>)
     ensures r.len() == v.len(), forall|i: int| 0 <= i < v.len() ==> *(#[trigger] r[i]) == v[i]
 { v.iter().collect() }
+// ---- iterator pipelines instantiated at Vec (R31): chain / once / empty / filter / map over a range ----
+// `a.chain(b)`: the items of a, then the items of b
+#[verifier::external_body]
+pub fn vec_chain<T>(a: Vec<T>, b: Vec<T>) -> (r: Vec<T>) ensures r@ == a@ + b@ { let mut a = a; a.extend(b); a }
+// `std::iter::once(x)`: exactly x
+#[verifier::external_body]
+pub fn vec_once<T>(x: T) -> (r: Vec<T>) ensures r@ == seq![x] { vec![x] }
+// `std::iter::empty()`
+#[verifier::external_body]
+pub fn vec_empty<T>() -> (r: Vec<T>) ensures r@ == Seq::<T>::empty() { Vec::new() }
+// the subsequence of v selected by the flags b
+pub open spec fn sel<T>(v: Seq<T>, b: Seq<bool>, n: int) -> Seq<T> decreases n {
+    if n <= 0 { Seq::empty() } else if b[n - 1] { sel(v, b, n - 1).push(v[n - 1]) } else { sel(v, b, n - 1) }
+}
+// `.filter(C)`: the items on which the closure answered true, in order (the closure sees a reference to the item)
+#[verifier::external_body]
+pub fn vec_filter<T, F: Fn(&T) -> bool>(v: Vec<T>, f: F) -> (r: Vec<T>)
+    requires forall|i: int| 0 <= i < v.len() ==> f.requires((&#[trigger] v[i],))
+    ensures exists|b: Seq<bool>| b.len() == v.len() && (forall|i: int| 0 <= i < v.len() ==> f.ensures((&v[i],), #[trigger] b[i])) && r@ == sel(v@, b, v.len() as int)
+{ v.into_iter().filter(f).collect() }
+// `(lo..hi).map(C)`: the closure applied to lo, lo + 1, .., hi - 1 in order
+#[verifier::external_body]
+pub fn range_map_collect<U, F: Fn(usize) -> U>(lo: usize, hi: usize, f: F) -> (r: Vec<U>)
+    requires forall|i: usize| lo <= i < hi ==> f.requires((i,))
+    ensures r.len() == (if hi >= lo { hi - lo } else { 0 }), forall|i: int| 0 <= i < r.len() ==> f.ensures(((lo + i) as usize,), #[trigger] r[i])
+{ (lo..hi).map(f).collect() }
+// `Option::into_iter()` handed to a collector (R31): the value, if any
+pub fn opt_into_vec(o: Option<u64>) -> (r: Vec<u64>) ensures r@ == (match o { Some(k) => seq![k], None => Seq::<u64>::empty() }) {
+    match o { Some(k) => { let mut v = Vec::new(); v.push(k); v } None => Vec::new() }
+}
